@@ -164,6 +164,9 @@ func (h *harness) streamCrash() {
 		if which != "" {
 			lines = append(lines, fmt.Sprintf("C %s %s %s", which, encStr(old), encStr(new)))
 			observed = append(observed, seen)
+			// the durability model (power loss) must allow at least everything a mere process stop shows
+			lines = append(lines, fmt.Sprintf("CD %s %s %s", which, encStr(old), encStr(new)))
+			observed = append(observed, seen)
 		}
 	}
 	os.RemoveAll(dir)
